@@ -340,8 +340,32 @@ fn deep(args: &[String]) {
     }
 }
 
+// ---- C23 validator coverage gaps: scripts with undefined variables that the parser accepts ----
+fn c23() {
+    let cases = [
+        ("control (must be rejected)", r#"(ap undefined $s)"#),
+        ("control (must be rejected)", r#"(call "p" ("s" "f") [undefined])"#),
+        ("field:ApMap.value", r#"(ap ("k" undefined) %map)"#),
+        ("field:Canon.peer_id", r#"(canon undefined_peer $s #canon)"#),
+        ("field:CanonMap.peer_id", r#"(canon undefined_peer %m #%canon)"#),
+        ("field:CanonStreamMapScalar.peer_id", r#"(canon undefined_peer %m scalar)"#),
+        ("payload:Fail::Scalar", r#"(fail undefined)"#),
+        ("payload:Fail::ScalarWithLambda", r#"(fail undefined.$.a)"#),
+        ("payload:Fail::CanonStreamWithLambda", r#"(fail #undef.$.[0])"#),
+        ("payload:ApArgument::Error", r#"(ap :error:.$.[idx] x)"#),
+        ("payload:ApArgument::LastError", r#"(ap %last_error%.$.[idx] x)"#),
+        ("payload:ImmutableValue::Error", r#"(call "p" ("s" "f") [:error:.$.[idx]])"#),
+        ("payload:ImmutableValue::LastError", r#"(call "p" ("s" "f") [%last_error%.$.[idx]])"#),
+    ];
+    for (id, script) in cases {
+        let r = air_parser::parse(script);
+        println!("C23 {id}: {script} -> {}", if r.is_ok() { "ACCEPTED".to_string() } else { format!("rejected") });
+    }
+}
+
 fn main() {
     let which: Vec<String> = std::env::args().skip(1).collect();
+    if which.iter().any(|w| w == "c23") { c23(); }
     if which.first().map(|w| w == "deep").unwrap_or(false) { deep(&which[1..]); return; }
     if which.is_empty() || which.iter().any(|w| w == "c03") { c03(); }
     g1::main_g1(&which);
